@@ -77,6 +77,55 @@ CHECKS = {
         technique="property-based testing against a high-precision (mpmath expm) reference + differential testing",
         ref="DESIGN.md section 4 C04",
     ),
+    "C11": dict(
+        level="exploration",
+        text="Hypothesis-generated parameter sets (flat/nested/numeric labels; free, fixed, bounded, one-sided, non-negative, expression parameters; values on/near bounds, exactly 1 for non-negative, 1e-12..1e12): round trip through the optimiser's vector, what least_squares is handed (stub substituted for the name used by the optimizer), and real fits with all three methods: every history record and the result respect bounds / fixed / expressions, and Jacobian columns, covariance and standard errors refer to the free-label order (finite-difference derivative of the independently captured objective).",
+        note="Round trip rtol 1e-9; Jacobian column match by cosine > 0.99 against central differences; either documented branch of the log-space standard error accepted.",
+        technique="property-based round-trip and differential testing (Hypothesis)",
+        ref="DESIGN.md section 4 C11",
+    ),
+    "C12": dict(
+        level="exploration",
+        text="Exhaustive enumeration of all labelled dependency DAGs over <= 4 expression parameters x every placement of <= 2 plain parameters (1/4 sample in quick, all 23 056 in thorough), random expression trees up to 6 parameters, a rule-based state machine of updates / copies / csv and yml reloads, and real optimisations whose harness megacomplex logs every evaluated parameter vector; oracle: the strategy's own expression tree evaluated in dependency order, idempotence of a second update.",
+        note="Expression trees leaving the real finite domain are discarded and counted; rtol 1e-12.",
+        technique="exhaustive enumeration + stateful property-based testing against a reference evaluator",
+        ref="DESIGN.md section 4 C12",
+    ),
+    "C16": dict(
+        level="exploration",
+        text="Hypothesis-generated valid parameter sets (numeric-looking, boolean-looking, nested labels; all-empty / mixed option columns; NaN errors, infinite bounds, expressions incl. numeric literals) saved and loaded through csv, tsv, xlsx and ods for 3 cycles and compared with an own field-by-field comparator; yml / dict / list specifications against programmatic construction; atheris through hypothesis.fuzz_one_input in the thorough tier.",
+        note="Floats after text I/O compared to k*1e-13 relative after k cycles. Labels equal to pandas NA tokens are the known finding D16e.",
+        technique="property-based round-trip testing (Hypothesis) + coverage-guided fuzzing of the same strategies (atheris)",
+        ref="DESIGN.md section 4 C16",
+    ),
+    "C17": dict(
+        level="exploration",
+        text="Hypothesis model grammar over the built-in item types (tuple-keyed K-matrices, interval forms, nested labels, several groups): yml round trip of the specification AND of the objective; enumerated SavingOptions x target kinds for results (loaded in place and after moving the folder and changing cwd); netCDF datasets bit-equal; ascii time-/wavelength-explicit files for non-square data in both dimension orders.",
+        note="YAML statistics exact, netCDF byte-exact, text floats 1e-13 relative, ascii values 1e-10 (written %.10e).",
+        technique="property-based round-trip testing (Hypothesis) + exhaustive option grid",
+        ref="DESIGN.md section 4 C17",
+    ),
+    "C18": dict(
+        level="exploration",
+        text="Exhaustive matrix of every save_* function x every registered format (+ unknown format, + a harness plugin that writes half a file and raises) x target state x allow_overwrite with a file-tree snapshot oracle (bytes and mtimes); exhaustive short sequences and Hypothesis state machines over a real Project (optimize with prefix-sharing result names, import/generate with all flags, deletion of old runs) against a run-number model written from the statement.",
+        note="Result names ending in _run_dddd are inherently ambiguous and excluded. Exhaustive over the stated matrix and over sequences of length 4 (5 in thorough) only.",
+        technique="exhaustive enumeration + stateful property-based testing against a reference model",
+        ref="DESIGN.md section 4 C18",
+    ),
+    "C19": dict(
+        level="exploration",
+        text="Exhaustive BFS over all sequences of register / set_plugin operations up to depth 4 (5 in thorough) over a small alphabet, with every lookup evaluated after every prefix, for a fresh dict and for copies of the three real registries; exhaustive dispatch of load_*/save_* against recording plugins; a Hypothesis state machine up to 40 steps; oracle: abstract registry model written from the statement.",
+        note="Only statement-level facts are asserted (not the exact key set of the registry dict). Real registries are restored and checked for leaks after every case.",
+        technique="exhaustive bounded enumeration + stateful property-based testing against an abstract model",
+        ref="DESIGN.md section 4 C19",
+    ),
+    "C20": dict(
+        level="exploration",
+        text="Hypothesis model grammar over all built-in item types with matching parameters; an independent table of 31 reference positions drives the mutations (each reference renamed, each definition deleted, each parameter removed, unique megacomplexes duplicated, exclusive ones combined): validate / valid / Scheme.validate never raise, every mutation is reported naming the missing label, the unmutated model is valid, fills and evaluates without lookup errors, generated parameters validate. atheris on the grammar in the thorough tier.",
+        note="Positions annotated as plain str (weights datasets, clp targets, compartments) are not treated as references.",
+        technique="property-based mutation testing against an independent reference table (Hypothesis, atheris)",
+        ref="DESIGN.md section 4 C20",
+    ),
 }
 
 PENDING_REASON = "check not built yet in this session (planned, see DESIGN.md section 4); nothing is claimed for it"
